@@ -404,7 +404,7 @@ package scipipe
 //@ define outFilesRecorded(t *Task, a *AuditInfo) bool = (forall n string :: n in a.OutFiles <==> n in t.OutIPs) && (forall n string :: n in t.OutIPs ==> a.OutFiles[n] == t.OutIPs[n].path)
 
 //@ define isJoin(t *Task, i string) bool = t.portInfos[i].join
-//@ define inputsDistinct(t *Task) bool = (forall i1 string, i2 string :: i1 in t.InIPs && i2 in t.InIPs && i1 != i2 && !isJoin(t, i1) && !isJoin(t, i2) ==> t.InIPs[i1].path != t.InIPs[i2].path) && (forall i1 string, i2 string, j int :: i1 in t.InIPs && i2 in t.InIPs && !isJoin(t, i1) && isJoin(t, i2) && 0 <= j && j < len(t.subStreamIPs[i2]) ==> t.subStreamIPs[i2][j].path != t.InIPs[i1].path) && (forall i1 string, i2 string, j1 int, j2 int :: i1 in t.InIPs && i2 in t.InIPs && isJoin(t, i1) && isJoin(t, i2) && 0 <= j1 && j1 < len(t.subStreamIPs[i1]) && 0 <= j2 && j2 < len(t.subStreamIPs[i2]) && (i1 != i2 || j1 != j2) ==> t.subStreamIPs[i1][j1].path != t.subStreamIPs[i2][j2].path)
+//@ define inputsDistinct(t *Task) bool = (forall i string, o string :: i in t.InIPs && o in t.OutIPs ==> t.InIPs[i].BaseIP != t.OutIPs[o].BaseIP) && (forall i string, j int, o string :: i in t.InIPs && isJoin(t, i) && 0 <= j && j < len(t.subStreamIPs[i]) && o in t.OutIPs ==> t.subStreamIPs[i][j].BaseIP != t.OutIPs[o].BaseIP) && (forall i1 string, i2 string :: i1 in t.InIPs && i2 in t.InIPs && i1 != i2 && !isJoin(t, i1) && !isJoin(t, i2) ==> t.InIPs[i1].path != t.InIPs[i2].path) && (forall i1 string, i2 string, j int :: i1 in t.InIPs && i2 in t.InIPs && !isJoin(t, i1) && isJoin(t, i2) && 0 <= j && j < len(t.subStreamIPs[i2]) ==> t.subStreamIPs[i2][j].path != t.InIPs[i1].path) && (forall i1 string, i2 string, j1 int, j2 int :: i1 in t.InIPs && i2 in t.InIPs && isJoin(t, i1) && isJoin(t, i2) && 0 <= j1 && j1 < len(t.subStreamIPs[i1]) && 0 <= j2 && j2 < len(t.subStreamIPs[i2]) && (i1 != i2 || j1 != j2) ==> t.subStreamIPs[i1][j1].path != t.subStreamIPs[i2][j2].path)
 //@ define linkedPlain(t *Task, a *AuditInfo, i string) bool = t.InIPs[i].path in a.Upstream && a.Upstream[t.InIPs[i].path] == t.InIPs[i].auditInfo && t.InIPs[i].auditInfo != nil
 //@ define linkedMember(t *Task, a *AuditInfo, i string, j int) bool = t.subStreamIPs[i][j].path in a.Upstream && a.Upstream[t.subStreamIPs[i][j].path] == t.subStreamIPs[i][j].auditInfo && t.subStreamIPs[i][j].auditInfo != nil
 //@ define upstreamLinked(t *Task, a *AuditInfo) bool = (forall i string :: i in t.InIPs && !isJoin(t, i) ==> linkedPlain(t, a, i)) && (forall i string, j int :: i in t.InIPs && isJoin(t, i) && 0 <= j && j < len(t.subStreamIPs[i]) ==> linkedMember(t, a, i, j))
